@@ -47,7 +47,12 @@ def _linear(u):
     return float(np.sum(u))  # optimum on a face / corner of the box
 
 
-FUNCS = {"sphere": _sphere, "multi": _multi, "funnels": _funnels, "plateau": _plateau, "zero": _zero,
+def _offset(u):
+    # large offset, small differences: relative float tolerances (np.isclose) confuse nearly equal values
+    return 1000.0 + _sphere(u)
+
+
+FUNCS = {"offset": _offset, "sphere": _sphere, "multi": _multi, "funnels": _funnels, "plateau": _plateau, "zero": _zero,
          "linear": _linear}
 
 
